@@ -293,3 +293,72 @@ func GenCuts(r *common.Rand, size int) string {
 	}
 	return strings.Join(parts, ",")
 }
+
+func tl(n int) int {
+	switch {
+	case n <= 0xfc:
+		return 1
+	case n <= 0xffff:
+		return 3
+	}
+	return 5
+}
+
+// overhead of SignatureInfo + SignatureValue (for the ESTIMATED size) per signer token, for the
+// steering shapes below (approximate on purpose: the generator sweeps a window around the target)
+var dataOverhead = map[string]int{"sha": 39, "hmac": 54, "ecc": 94, "rsa": 280, "t:72:60": 86, "t:300:200": 316, "t:253:252": 269}
+var intOverhead = map[string]int{"shaint": 62, "hmacint": 93, "eccint": 117, "rsaint": 303, "ecc": 94, "t:72:60": 86}
+
+// Steered: a Data / Interest whose ESTIMATED value length sits at a TL-length boundary
+// (252..256, 65534..65538) so that a signature shorter than its estimate narrows the outer header
+func Steered(r *common.Rand, g *common.Gen, interest bool) string {
+	targets := []int{252, 253, 253, 254, 254, 255, 256}
+	if (common.Thorough() && r.Chance(1, 12)) || r.Chance(1, 60) {
+		targets = []int{65534, 65535, 65536, 65536, 65537, 65537, 65538}
+	}
+	t := common.Pick(r, targets) + r.Range(-1, 1)
+	if !interest {
+		signer := common.Pick(r, []string{"ecc", "ecc", "ecc", "ecc", "ecc", "sha", "hmac", "rsa", "t:72:60", "t:72:60", "t:300:200", "t:253:252"})
+		switch signer {
+		case "t:72:60": // 12 bytes shorter than estimated: the header narrows for estimates 253..264
+			if t < 1000 {
+				t = r.Range(253, 264)
+			} else {
+				t = r.Range(65536, 65547)
+			}
+		case "t:300:200": // 100 bytes (+2 of the length field) shorter
+			if t < 1000 {
+				t = r.Range(325, 354)
+			} else {
+				t = r.Range(65536, 65637)
+			}
+		}
+		o := dataOverhead[signer]
+		// name /8:61 (5) + MetaInfo (2) + content TL + n + overhead = t
+		n := t - 7 - o
+		n -= 1 + tl(n)
+		if n < 0 {
+			n = r.Range(0, 8)
+		}
+		g.Stat("steer-data")
+		return "mkd /8:61 - - - " + common.Hex(r.Bytes(n)) + " " + signer
+	}
+	signer := common.Pick(r, []string{"eccint", "eccint", "eccint", "ecc", "ecc", "shaint", "hmacint", "rsaint", "t:72:60", "t:72:60"})
+	if signer == "t:72:60" {
+		if t < 1000 {
+			t = r.Range(253, 264)
+		} else {
+			t = r.Range(65536, 65547)
+		}
+	}
+	o := intOverhead[signer]
+	// name /8:61 + digest (39) + parameters TL + n + overhead = t
+	n := t - 39 - o
+	n -= 1 + tl(n)
+	if n < 0 {
+		n = 0
+	}
+	g.Stat("steer-interest")
+	return "mki /8:61 0 0 - - - - " + common.Hex(r.Bytes(n)) + " " + signer
+}
+
